@@ -152,6 +152,27 @@ int gen_matrix(const case_t *c, rng_t *r, csc_t *A)
             for (int_t a = par[j] < n ? par[par[j]] : n; a < n; a = par[a]) if (rng_u01(r) < xanc) P(j, a) = 1;
         }
         free(par);
+    } else if (!strcmp(fam, "pendclique")) {
+        /* node k with npend pendant neighbours (one entry A(p,k) or A(k,p) each), a clique {k} U D in which the links of k
+           are stored only in ROW k (A(k,d) != 0, A(d,k) == 0) unless symstruct, D a full block, and an independent dense
+           block that is eliminated last; randomly relabelled.  Structurally unsymmetric inputs on which the symmetric
+           (A+A') prediction and the actual column structure of A differ most. */
+        int_t npend = cint(c, "npend", 3), nd = cint(c, "nd", 6);
+        if (npend + 1 + nd > n) { nd = n - npend - 1; if (nd < 0) { nd = 0; npend = n - 1; } }
+        int symstruct = (int)cint(c, "symstruct", 0);
+        int_t *lab = (int_t *)malloc((size_t)(n + 1) * sizeof(int_t));
+        for (int_t i = 0; i < n; ++i) lab[i] = i;
+        if (cint(c, "relabel", 1)) shuffle(r, lab, n);
+        int_t k = npend;
+        for (int_t p = 0; p < npend; ++p) { if (rng_int(r, 2)) P(lab[k], lab[p]) = 1; else P(lab[p], lab[k]) = 1; }
+        for (int_t d = 0; d < nd; ++d) {
+            P(lab[k], lab[k + 1 + d]) = 1;
+            if (symstruct) P(lab[k + 1 + d], lab[k]) = 1;
+            for (int_t e = 0; e < nd; ++e) if (e != d) P(lab[k + 1 + d], lab[k + 1 + e]) = 1;
+        }
+        for (int_t d = npend + 1 + nd; d < n; ++d) for (int_t e = npend + 1 + nd; e < n; ++e) if (e != d) P(lab[d], lab[e]) = 1;
+        for (int_t i = 0; i < n; ++i) P(i, i) = 2;
+        free(lab);
     } else if (!strcmp(fam, "blockdiag")) {
         /* independent diagonal blocks: the column etree is a forest with one tree per block */
         int_t bs = cint(c, "bs", 3); if (bs < 1) bs = 1;
@@ -362,6 +383,26 @@ int gen_matrix(const case_t *c, rng_t *r, csc_t *A)
         /* dupcol=a,b : column b := column a (values and structure) -> exact numerical singularity */
     }
 
+    /* unitri=1|2: keep the upper (1) / lower (2) triangle, unit diagonal, off-diagonal entries +-1 (complex: also +-i):
+       with the natural ordering every factorization and solve step is exact integer arithmetic, so solutions with
+       exactly zero components can be constructed (code that skips zero entries is exercised) */
+    if (cint(c, "unitri", 0) && m == n) {
+        int up = cint(c, "unitri", 0) == 1;
+        int_t q2 = 0;
+        for (int_t j = 0; j < n; ++j) {
+            int_t b0 = A->colptr[j]; A->colptr[j] = q2; int hasd = 0;
+            int_t e0 = A->colptr[j + 1];
+            for (int_t k = b0; k < e0; ++k) {
+                int_t i = A->rowind[k];
+                if (i != j && ((up && i > j) || (!up && i < j))) continue;
+                if (i == j) { A->val[q2] = MKE(1, 0); hasd = 1; }
+                else { int sgn = rng_int(r, 2) ? 1 : -1; A->val[q2] = (IS_COMPLEX && rng_int(r, 3) == 0) ? MKE(0, sgn) : MKE(sgn, 0); }
+                A->rowind[q2++] = i;
+            }
+            if (!hasd) { /* the families used with this option all have a full diagonal */ }
+        }
+        A->colptr[n] = q2; A->nnz = q2;
+    }
 scaling: ;
     /* --- power-of-two row/column scaling (exact) --- */
     int rs = cint(c, "rscale", 0), cs = cint(c, "cscale", 0);
